@@ -117,6 +117,16 @@ class Alloc(Harness):
                 raise AssertionError('concrete run disagrees with oracle: %r'
                                      % ((g, P, nv, Es, p, mu, bad), ))
             n += 1
+        # the same mathematical input in other numpy representations
+        # (integer / float32 / read-only / strided arrays, int or numpy
+        # scalars): values the exact-real model cannot tell apart
+        from pysym import probes
+        gi = np.array([float(rng.randrange(1, 9)) for _ in range(N)])
+        for (P, nv, Es) in ((3.0, 1.0, 1.0), (1.0, 2.0, 2.0)):
+            n += probes.require(
+                'C12/doWF', lambda g, P, nv, Es: wf.doWF(g, P, nv, Es),
+                [gi, P, nv, Es], rtol=1e-9,
+                kinds=('readonly', 'strided', 'int', 'narrow', 'pyscalar'))
         return n
 
 
